@@ -177,3 +177,30 @@ Proof.
     rewrite (Hall k (or_introl eq_refl)), N.eqb_refl. cbn [negb]. apply IH. intros k' Hk'. apply Hall. right. exact Hk'. }
   rewrite Hrem. cbn [ac_remaining ac_status]. split; reflexivity.
 Qed.
+
+(* "that chord's action is performed once": the layout reads the action of the first chord that has not been read yet; reading marks
+   it read (Unread -> Releasable, UnreadReleased -> Released), so it is never handed out again; nothing else changes *)
+Definition unread (a : active_chord) : bool := match ac_status a with AUnread | AUnreadReleased => true | _ => false end.
+Definition mark_read (a : active_chord) : active_chord :=
+  mkach (ac_coord a) (ac_remaining a) (ac_keys a) (ac_action a)
+        (match ac_status a with AUnread => AReleasable | AUnreadReleased => AReleased | s => s end) (ac_delay a).
+
+Theorem action_is_read_once : forall l,
+  (forallb (fun a => negb (unread a)) l = true /\ get_action_go l = (l, None)) \/
+  (exists pre a post, l = pre ++ a :: post /\ forallb (fun a => negb (unread a)) pre = true /\ unread a = true /\
+     get_action_go l = (pre ++ mark_read a :: post, Some ((0, ac_coord a), ac_delay a, ac_action a)) /\ unread (mark_read a) = false).
+Proof.
+  induction l as [|a r IH].
+  - left. split; reflexivity.
+  - cbn [get_action_go]. destruct (ac_status a) eqn:Es.
+    + right. exists [], a, r. unfold unread, mark_read. rewrite Es. cbn. repeat split.
+    + right. exists [], a, r. unfold unread, mark_read. rewrite Es. cbn. repeat split.
+    + destruct IH as [[Hall Hg]|(pre & b & post & -> & Hpre & Hb & Hg & Hm)].
+      * left. rewrite Hg. cbn [forallb]. unfold unread at 1. rewrite Es. cbn [negb andb]. split; [exact Hall|reflexivity].
+      * right. exists (a :: pre), b, post. rewrite Hg. cbn [forallb app]. unfold unread at 1. rewrite Es. cbn [negb andb].
+        repeat split; assumption.
+    + destruct IH as [[Hall Hg]|(pre & b & post & -> & Hpre & Hb & Hg & Hm)].
+      * left. rewrite Hg. cbn [forallb]. unfold unread at 1. rewrite Es. cbn [negb andb]. split; [exact Hall|reflexivity].
+      * right. exists (a :: pre), b, post. rewrite Hg. cbn [forallb app]. unfold unread at 1. rewrite Es. cbn [negb andb].
+        repeat split; assumption.
+Qed.
